@@ -230,3 +230,222 @@ Proof.
   split; [exact G|]. split; [exact E2|]. split; [exact EOD|]. split; [reflexivity|].
   split; [exact G2|]. split; [exact G3|]. intros AU. apply (DU AU).
 Qed.
+
+(* the DAILY advance: the cursor moves `interval` days on (kept an existing date), or the year would
+   pass 9999 *)
+Lemma daily_advance : forall r rl k cnt s filtered c1 out1,
+  normalize r = Ok rl -> dfam r -> at_pass_d r rl k cnt s ->
+  (exists s', advance rl s filtered c1 out1 = Ok (AdvGo s') /\ at_pass_d r rl (k + 1) c1 s' /\ c_out s' = out1) \/
+  (advance rl s filtered c1 out1 = Ok AdvMax /\ max_ord < sp_ord0 r + (k + 1) * r_interval r).
+Proof.
+  intros r rl k cnt s filtered c1 out1 HN [HW Hfr Hp Hsp Hs He] (Av & Ao & Ar & At & Ac).
+  destruct (normalize_misc r rl HN) as (Ni & _ & _ & _ & _ & _ & _).
+  pose proof (normalize_freq r rl HN) as Nfr. rewrite Hfr in Nfr.
+  pose proof (normalize_wkst r rl HN) as Nwk.
+  pose proof (plain_only_no_nth r rl HN Hp) as TN.
+  destruct (normalize_fields r rl HN) as (_ & _ & _ & _ & _ & Nea & _).
+  assert (TE : truthy (byeaster rl) = false) by (rewrite Nea, He; reflexivity).
+  assert (Hwf : 1 <= r_interval r /\ 0 <= r_wkst r <= 6).
+  { pose proof HW as HW'. unfold spec_wf in HW'.
+    repeat match type of HW' with _ && _ = true =>
+      let H := fresh "W" in apply andb_true_iff in HW'; destruct HW' as [HW' H] end.
+    unfold between in *. lia. }
+  destruct Hwf as [Hitv Hwk].
+  destruct (index_in_year _ _ _ Av) as (_ & _ & Hy).
+  set (y := c_year s) in *. set (m := c_month s) in *. set (d := c_day s) in *.
+  assert (Hm : 1 <= m <= 12 /\ 1 <= d <= dim y m) by (unfold valid_ymd in Av; lia).
+  destruct Hm as [Hm Hd].
+  assert (EK : sp_ord0 r + (k + 1) * r_interval r = ord_of_ymd y m d + interval rl) by (rewrite Ao, Ni; ring).
+  unfold advance. rewrite Nfr.
+  change (DAILY =? YEARLY) with false. change (DAILY =? MONTHLY) with false. change (DAILY =? WEEKLY) with false.
+  change (DAILY =? DAILY) with true. cbv iota. fold y m d.
+  unfold finish_advance. cbn [andb].
+  set (d2 := d + interval rl). assert (Hd2 : d2 = d + r_interval r) by (unfold d2; rewrite Ni; reflexivity).
+  assert (Same : at_pass_d r rl (k + 1) c1
+                   (mkSt y m d2 (c_hour s) (c_minute s) (c_second s) (c_weekday s) (c_ii s) (c_timeset s) c1 out1)
+                 \/ dim y m < d2).
+  { destruct (Z_le_gt_dec d2 (dim y m)) as [Hle|Hgt]; [left|right; lia].
+    unfold at_pass_d. cbn [c_year c_month c_day c_ii c_timeset c_count].
+    split; [unfold valid_ymd; lia|]. split; [rewrite EK; unfold ord_of_ymd, d2; lia|].
+    split; [exact Ar|]. split; [exact At|reflexivity]. }
+  destruct (28 <? d2) eqn:E28.
+  2:{ left. eexists. split; [reflexivity|]. split; [|reflexivity].
+      destruct Same as [S|S]; [exact S|]. pose proof (dim_pos y m). lia. }
+  destruct (dim y m <? d2) eqn:Edm.
+  2:{ left. eexists. split; [reflexivity|]. split; [|reflexivity].
+      destruct Same as [S|S]; [exact S|lia]. }
+  (* the carry loop *)
+  assert (Hk : exists kk, Z.to_nat d2 = S kk /\ d2 <= 28 * Z.of_nat kk + dim y m).
+  { exists (Z.to_nat (d2 - 1)). pose proof (dim_pos y m). split; lia. }
+  destruct Hk as (kk & Ekk & Hkk). rewrite Ekk.
+  pose proof (fix_loop_never_out_of_fuel kk y m d2 (dim y m) ltac:(pose proof (dim_pos y m); lia) Hm Hkk) as NF.
+  destruct (fix_loop (S kk) y m d2 (dim y m)) as [y' m' d'| |] eqn:EF; [| |contradiction].
+  - (* landed on an existing date *)
+    destruct (fix_loop_ordinal (S kk) y m d2 y' m' d' Hm ltac:(lia) EF) as (EO & Hm' & Hd').
+    destruct (fix_loop_year_le (S kk) y m d2 (dim y m) y' m' d' EF ltac:(unfold T_MAXYEAR; lia)) as [Hy1 Hy2].
+    unfold T_MAXYEAR in Hy2.
+    destruct (rebuild_succeeds rl y' m' ltac:(lia) ltac:(rewrite Nwk; exact Hwk) TN (or_introl TE)) as (ii2 & R2).
+    assert (R2' : rebuild rl (c_ii s) y' m' = Ok ii2).
+    { destruct (Z.eq_dec y' y) as [->|Hne].
+      - rewrite (rebuild_same_year rl y m m' (c_ii s) Ar Hy TN). exact R2.
+      - destruct (rebuild_slots rl y m (c_ii s) Hy Ar) as (LY & EM).
+        destruct (rebuild_char rl y m (c_ii s) Hy Ar) as (_ & CN & _).
+        rewrite rebuild_from_previous_year; [exact R2| | exact TN | apply CN; exact TN | right; apply EM; exact TE].
+        rewrite LY. unfold opt_neqb. apply negb_true_iff. apply Z.eqb_neq. lia. }
+    rewrite R2'. cbn [bind]. left. eexists. split; [reflexivity|]. split; [|reflexivity].
+    unfold at_pass_d. cbn [c_year c_month c_day c_ii c_timeset c_count].
+    split; [unfold valid_ymd; lia|]. split; [rewrite EO, EK; unfold vord, ord_of_ymd, d2; lia|].
+    split; [exact R2|]. split; [exact At|reflexivity].
+  - (* the year would pass 9999 *)
+    right. split; [reflexivity|].
+    pose proof (fix_loop_max_only_beyond (S kk) y m d2 Hm ltac:(unfold T_MAXYEAR; lia) EF) as B.
+    unfold T_MAXYEAR in B. change (days_before_year (9999 + 1)) with 3652059 in B.
+    rewrite EK. unfold vord, ord_of_ymd, d2, max_ord in *. lia.
+Qed.
+
+(* one pass of the loop for the DAILY family *)
+Lemma daily_step : forall r rl k cnt s,
+  normalize r = Ok rl -> dfam r -> at_pass_d r rl k cnt s ->
+  exists acc' cnt' b, sp_take r (step_items r k) cnt (c_out s) = (acc', cnt', b) /\
+    ((exists s', step rl s = inl s' /\ at_pass_d r rl (k + 1) cnt' s' /\ c_out s' = acc' /\ b = false) \/
+     (exists t, step rl s = inr (acc', t) /\
+                (b = true \/ until_lt_start r \/ max_ord < sp_ord0 r + (k + 1) * r_interval r))) /\
+    (sp_after_until r (sp_ord0 r + k * r_interval r, 0) = true -> acc' = c_out s).
+Proof.
+  intros r rl k cnt s HN Y A.
+  pose proof Y as [HW Hfr Hp Hsp Hs He].
+  destruct (normalize_misc r rl HN) as (_ & Nsp & _ & _ & _ & _ & _).
+  destruct (daily_pass_full r rl k cnt s HN Y A)
+    as (ds & ds' & f & out' & c1 & s1 & c1' & b1 & E1 & E2 & E3 & E4 & G2 & G3 & G4).
+  pose proof A as (Av & Ao & Ar & At & Ac).
+  exists out', c1', b1. split; [exact E4|]. split; [|exact G4].
+  assert (PRE : step rl s =
+    match s1 with
+    | Some t => inr (out', t)
+    | None => match advance rl s f c1 out' with
+              | Err e => inr (out', TRaised e)
+              | Ok AdvMax => inr (out', TMaxYear)
+              | Ok AdvFuel => inr (out', TOutOfFuel)
+              | Ok (AdvGo s') => inl s'
+              end
+    end).
+  { unfold step. rewrite E1. cbn [bind]. rewrite E2. cbn [bind fst snd].
+    rewrite Nsp, Hsp. cbn [truthy andb]. rewrite At, Ac. rewrite E3. reflexivity. }
+  destruct s1 as [t|].
+  - right. exists t. split; [exact PRE|]. destruct (G3 ltac:(discriminate)) as [H|H]; auto.
+  - destruct (G2 eq_refl) as [Hb Ec]. subst c1'.
+    destruct (daily_advance r rl k cnt s f c1 out' HN Y A) as [(s' & EA & A' & EO)|(EA & Hmax)].
+    + left. exists s'. rewrite PRE, EA. split; [reflexivity|]. split; [exact A'|]. split; [exact EO|exact Hb].
+    + right. exists TMaxYear. rewrite PRE, EA. split; [reflexivity|]. right. right. exact Hmax.
+Qed.
+
+Lemma spec_loop_beyond_daily r limit n k cnt acc :
+  r_freq r = DAILY -> max_ord < sp_ord0 r + k * r_interval r ->
+  fst (spec_loop r limit n k cnt acc) = acc.
+Proof.
+  intros Hfr Hk. destruct n as [|n]; cbn [spec_loop]; [reflexivity|].
+  destruct (limit <=? zlen acc); [reflexivity|].
+  rewrite (step_lo_daily r k Hfr).
+  replace (max_ord <? sp_ord0 r + k * r_interval r) with true by lia. reflexivity.
+Qed.
+
+Lemma daily_run_dead_until : forall r rl limit n k cnt s,
+  normalize r = Ok rl -> dfam r -> at_pass_d r rl k cnt s -> 0 <= k ->
+  sp_after_until r (sp_ord0 r + k * r_interval r, 0) = true ->
+  fst (run rl limit n s) = c_out s.
+Proof.
+  intros r rl limit n. induction n as [|n IH]; intros k cnt s HN Y A Hk AU; cbn [run].
+  - reflexivity.
+  - destruct (limit <=? zlen (c_out s)); [reflexivity|].
+    pose proof Y as [HW Hfr Hp Hsp Hs He]. pose proof (wf_itv r HW) as Hitv.
+    destruct (daily_step r rl k cnt s HN Y A) as (acc' & cnt' & b & ET & Hcase & Hau).
+    specialize (Hau AU).
+    destruct Hcase as [(s' & ES & A' & EO & Eb)|(t & ES & _)].
+    + rewrite ES. rewrite (IH (k + 1) cnt' s' HN Y A' ltac:(lia)).
+      * rewrite EO. exact Hau.
+      * apply (after_until_mono r _ _ AU). unfold inst_le. cbn [fst snd]. nia.
+    + rewrite ES. cbn [fst]. exact Hau.
+Qed.
+
+Lemma daily_run_is_spec : forall r rl limit n k cnt s,
+  normalize r = Ok rl -> dfam r -> at_pass_d r rl k cnt s -> 0 <= k ->
+  fst (run rl limit n s) = fst (spec_loop r limit n k cnt (c_out s)).
+Proof.
+  intros r rl limit n. induction n as [|n IH]; intros k cnt s HN Y A Hk.
+  - reflexivity.
+  - pose proof Y as [HW Hfr Hp Hsp Hs He]. pose proof (wf_itv r HW) as Hitv.
+    pose proof A as (Av & Ao & Ar & At & Ac).
+    destruct (index_in_year _ _ _ Av) as (_ & Ho & _). rewrite Ao in Ho.
+    destruct (sp_after_until r (sp_ord0 r + k * r_interval r, 0)) eqn:AU.
+    + rewrite (daily_run_dead_until r rl limit (S n) k cnt s HN Y A Hk AU).
+      cbn [spec_loop]. destruct (limit <=? zlen (c_out s)); [reflexivity|].
+      rewrite (step_lo_daily r k Hfr).
+      replace (max_ord <? sp_ord0 r + k * r_interval r) with false by lia. rewrite AU. reflexivity.
+    + cbn [run spec_loop]. destruct (limit <=? zlen (c_out s)); [reflexivity|].
+      rewrite (step_lo_daily r k Hfr).
+      replace (max_ord <? sp_ord0 r + k * r_interval r) with false by lia. rewrite AU.
+      destruct (match cnt with Some c => c <=? 0 | None => false end) eqn:EC.
+      * destruct cnt as [c|]; [|discriminate EC].
+        assert (D : dead s) by (exists c; split; [exact Ac|lia]).
+        pose proof (step_dead rl s D) as SD. destruct (step rl s) as [s'|[out t]].
+        -- destruct SD as [E D']. rewrite (run_dead rl limit n s' D'). exact E.
+        -- exact SD.
+      * destruct (daily_step r rl k cnt s HN Y A) as (acc' & cnt' & b & ET & Hcase & _).
+        rewrite ET. destruct Hcase as [(s' & ES & A' & EO & Eb)|(t & ES & Hb)].
+        -- rewrite ES. subst b. rewrite <- EO. apply IH; try assumption. lia.
+        -- rewrite ES. cbn [fst]. destruct b; [reflexivity|].
+           destruct Hb as [Hb|[UL|Hmax]]; [discriminate Hb| |].
+           ++ symmetry. apply (spec_loop_dead_until r limit UL).
+           ++ symmetry. apply (spec_loop_beyond_daily r limit n (k + 1) cnt' acc' Hfr Hmax).
+Qed.
+
+(* rrule_iter_correct for the DAILY family: every fuel *)
+Theorem daily_iter_correct : forall r rl limit n,
+  normalize r = Ok rl -> dfam r ->
+  fst (iterate rl limit n) = fst (spec_iter r limit n).
+Proof.
+  intros r rl limit n HN Y.
+  pose proof Y as [HW Hfr Hp Hsp Hs He].
+  destruct (normalize_misc r rl HN) as (Ni & Nsp & Ny & Nm & Nd & Nc & Nu).
+  pose proof (normalize_freq r rl HN) as Nfr. rewrite Hfr in Nfr.
+  pose proof (normalize_wkst r rl HN) as Nwk.
+  pose proof (plain_only_no_nth r rl HN Hp) as TN.
+  destruct (normalize_fields r rl HN) as (_ & _ & _ & _ & _ & Nea & _).
+  assert (TE : truthy (byeaster rl) = false) by (rewrite Nea, He; reflexivity).
+  assert (Hwf : 0 <= r_wkst r <= 6 /\ valid_ymd (r_y r) (r_m r) (r_d r) = true).
+  { pose proof HW as HW'. unfold spec_wf in HW'.
+    repeat match type of HW' with _ && _ = true =>
+      let H := fresh "W" in apply andb_true_iff in HW'; destruct HW' as [HW' H] end.
+    unfold between in *. split; [lia|assumption]. }
+  destruct Hwf as [Hwk V].
+  destruct (index_in_year _ _ _ V) as (_ & _ & Hy0).
+  destruct (rebuild_succeeds rl (r_y r) (r_m r) Hy0 ltac:(rewrite Nwk; exact Hwk) TN (or_introl TE)) as (ii0 & R0).
+  pose proof (timeset_is_spec r rl HN HW ltac:(rewrite Hfr; reflexivity)) as HT.
+  unfold iterate, init_state. rewrite Nfr. change (DAILY =? WEEKLY) with false. cbn [andb]. cbv iota.
+  rewrite Ny, Nm, Nd, R0. cbn [bind].
+  change (DAILY <? HOURLY) with true. cbv iota. rewrite HT. cbn [bind]. rewrite Nc.
+  unfold spec_iter.
+  set (s0 := mkSt _ _ _ _ _ _ _ _ _ _ _).
+  assert (A0 : at_pass_d r rl 0 (r_count r) s0).
+  { unfold at_pass_d, s0. cbn [c_year c_month c_day c_ii c_timeset c_count].
+    split; [exact V|]. split; [unfold sp_ord0; ring|]. split; [exact R0|]. split; reflexivity. }
+  pose proof (daily_run_is_spec r rl limit n 0 (r_count r) s0 HN Y A0 ltac:(lia)) as Q.
+  change (c_out s0) with (@nil instant) in Q.
+  destruct (run rl limit n s0) as [out t]. destruct (spec_loop r limit n 0 (r_count r) []) as [acc t'].
+  cbn [fst] in *. rewrite Q. reflexivity.
+Qed.
+
+(* non-vacuity: rrule(DAILY, dtstart=datetime(2023,12,25,9,0), interval=3, bymonth=(1,12), byweekday=(MO,TH),
+   count=4) crosses the year end *)
+Definition raw_daily_example : raw :=
+  mkRaw DAILY false 2023 12 25 9 0 0 3 0 (Some 4) None false
+        None (Some [1; 12]) None None None None (Some [(0, 0); (3, 0)]) None None None.
+Example daily_example :
+  dfam raw_daily_example /\
+  match normalize raw_daily_example with
+  | Ok rl => fst (iterate rl 100 40) =
+             [(ord_of_ymd 2023 12 25, 32400); (ord_of_ymd 2023 12 28, 32400); (ord_of_ymd 2024 1 15, 32400);
+              (ord_of_ymd 2024 1 18, 32400)]
+  | Err _ => False
+  end.
+Proof. split; [constructor; reflexivity|vm_compute; reflexivity]. Qed.
